@@ -293,14 +293,29 @@ impl LocalNode {
     pub(crate) fn new_helping(&self, ptr: usize) -> usize {
         let node = &self.node.get().expect("LocalNode::with ensures it is set");
         debug_assert_eq!(node.in_use.load(Relaxed), NODE_USED);
-        let (gen, discard) = node.helping.get_debt(ptr, &self.helping);
-        if discard {
-            // Too many generations happened, make sure the writers give the poor node a break for
-            // a while so they don't observe the generation wrapping around.
-            node.start_cooldown();
-            self.node.take();
-        }
+        // If the generation wrapped around, the node is retired in `finish_helping`, once the
+        // transaction is over. Doing it here would leave the rest of this very transaction
+        // (`confirm_helping`) without a node.
+        let (gen, _discard) = node.helping.get_debt(ptr, &self.helping);
         gen
+    }
+
+    /// Finishes a helping transaction started by `new_helping`, after its debt was settled.
+    ///
+    /// If the generation counter wrapped around in this transaction, too many generations
+    /// happened: make sure the writers give the poor node a break for a while so they don't
+    /// observe the generation wrapping around. The thread continues with *a* node ‒ this one
+    /// (once no writer is inside), or possibly a different or new one.
+    pub(crate) fn finish_helping(&self, gen: usize) {
+        if gen & !super::helping::TAG_MASK == 0 {
+            if let Some(node) = self.node.get() {
+                node.start_cooldown();
+                // We may be nested inside a writer of this very thread that walks the nodes and
+                // helps (its replacement is a load), so a node has to stay assigned: the
+                // invariant of `LocalNode::with` must keep holding for the outer call too.
+                self.node.set(Some(Node::get()));
+            }
+        }
     }
 
     /// Confirm the helping transaction.
